@@ -164,20 +164,71 @@ def run(prog, chk):
         chk.bad("C20.d", op, "child-keeps-pipe-end:" + ",".join(sorted(all_fds - child_closed)), op.where(ex[0]),
                 "the child reaches execvpe with %s still open: a write end kept open in the child means its own stdin (or the parent's reader) never sees end-of-file" % sorted(all_fds - child_closed))
     for f in (op, pfn(prog, "Process::start", lambda f: len(f.params) == 4 and f.params[1]["t"] == "int")):
-        st = C.nstores(f)
-        term = [s for s, l, r in st if l == "args[argc]" and r == "0"]
-        given = [b for b in f.blocks.values() if b.get("cond") is not None and re.search(r"!argv\[\(argc - 1\)\]", fin.key(f, b["cond"]))]
+        # evaluated for argc = 0..3, once with every caller element that is looked at null and once with none: what reaches exec is the
+        # caller's vector only when its last counted element was seen to be null, otherwise an own array: executable, argv[1..argc-1]
+        # unchanged, null pointer
         exe = callsn(f, "execvpe")
-        if term and given and exe and q.no_casts(f.r(q.call_args(f, exe[0])[1])) == "args":
-            chk.ok("C20.d", f, "argv handed to execvpe is null-terminated on both construction paths", f.where(term[0].node), "args[argc] = 0 / caller-terminated test", evals=2)
+        subs = [i for i, n in enumerate(f.nodes) if n["k"] == "ArraySubscriptExpr" and f.node_pos(i) is not None and q.no_casts(f.r(n["c"][0])) == "argv"]
+        if not exe or len(q.call_args(f, exe[0])) < 2:
+            chk.bad("C20.d", f, "argv-not-terminated", "%s:%s" % (f.file, f.line), "no execvpe call taking the prepared argument vector")
+            continue
+        vec = q.no_casts(f.r(q.call_args(f, exe[0])[1]))
+        ARGV = 5000
+        bad = None
+        n_ev = 0
+        for argc in range(0, 4):
+            for elems_null in (True, False):
+                val = {"argc": argc, "argv": ARGV, "this->pid": 0}
+                for i in subs:
+                    val[fin.key(f, i)] = 0 if elems_null else 77
+                st_ = {}
+
+                def trace(e, v_, _st=st_):
+                    n_ = f.nodes[e]
+                    if n_["k"] == "BinaryOperator" and n_.get("op") == "=":
+                        l_ = f.nodes[f.strip(n_["c"][0])]
+                        if l_["k"] == "ArraySubscriptExpr" and q.no_casts(f.r(l_["c"][0])) == vec:
+                            ix = fin.eval_expr(f, l_["c"][1], v_)
+                            r_ = f.nodes[f.strip(n_["c"][1])]
+                            while r_["k"] in ("CStyleCastExpr", "ImplicitCastExpr", "ParenExpr") and r_["c"]:
+                                nx_ = f.strip(r_["c"][0])
+                                r_ = f.nodes[nx_] if nx_ != r_["i"] else f.nodes[r_["c"][0]]
+                            src = ("argv", fin.eval_expr(f, r_["c"][1], v_)) if r_["k"] == "ArraySubscriptExpr" and q.no_casts(f.r(r_["c"][0])) == "argv" else ("other", None)
+                            _st[ix] = (q.is_zero(f, n_["c"][1]), src)
+                seen, end, fv = fin.walk_vals(f, f.entry, val, limit=800, assume=lambda k_: 0, trace=trace, stop_at=exe[0])
+                n_ev += 1
+                if fv.get(vec) == ARGV:
+                    if not (elems_null and argc >= 1):
+                        bad = ("argv-not-terminated", "with argc = %d and %s the caller's own array is handed to execvpe: nothing says it ends in a null pointer" % (
+                            argc, "no null element inside the count" if not elems_null else "an empty count"))
+                elif not st_:
+                    bad = ("argv-not-terminated", "with argc = %d the construction of the vector handed to execvpe could not be followed (%s)" % (argc, end))
+                else:
+                    T = max(argc, 1)
+                    if st_.get(T, (None,))[0] is not True:
+                        bad = ("argv-not-terminated", "with argc = %d the own copy gets no null pointer at index %d (zero stores at %s)" % (
+                            argc, T, sorted(k for k, z in st_.items() if z[0] and k is not None)))
+                    elif any(st_.get(k, (None,))[0] is True for k in range(T)):
+                        bad = ("argv-not-terminated", "with argc = %d an argument slot below the terminator is zeroed" % argc)
+                    elif 0 not in st_ or st_[0][1][0] == "argv":
+                        bad = ("argv-copy", "with argc = %d slot 0 of the child's vector is not set to the executable" % argc)
+                    else:
+                        for k in range(1, T):
+                            if k not in st_ or st_[k][1] != ("argv", k):
+                                bad = ("argv-copy", "with argc = %d slot %d of the child's vector is %s, not the caller's argv[%d]" % (
+                                    argc, k, "left unset" if k not in st_ else "taken from argv[%s]" % st_[k][1][1] if st_[k][1][0] == "argv" else "something else", k))
+                                break
+                if bad:
+                    break
+            if bad:
+                break
+        if bad:
+            chk.bad("C20.d", f, bad[0], "%s:%s" % (f.file, f.line),
+                    "the child's argument vector must be the executable, argv[1..argc-1] unchanged and a null pointer: %s" % bad[1], evals=n_ev)
         else:
-            chk.bad("C20.d", f, "argv-not-terminated", "%s:%s" % (f.file, f.line), "the argument vector passed to execvpe must end in a null pointer (own copy: args[argc] = 0; caller's vector only when argv[argc-1] is null)")
-        a0 = [s for s, l, r in st if l == "args[0]"]
-        cp = [s for s, l, r in st if re.match(r"^args\[i\]$", l) and r == "argv[i]"]
-        if a0 and cp:
-            chk.ok("C20.d", f, "args[0] = executable, args[i] = argv[i]", f.where(a0[0].node), "stores present", nontrivial=False)
-        else:
-            chk.bad("C20.d", f, "argv-copy", "%s:%s" % (f.file, f.line), "the child's argument vector must be args[0] = executable followed by argv[1..argc-1] unchanged")
+            chk.ok("C20.d", f, "argv handed to execvpe: executable, the caller's arguments, null pointer - on both construction paths", "%s:%s" % (f.file, f.line),
+                   "evaluated for argc 0..3 with null / non-null caller elements", evals=n_ev)
+            chk.ok("C20.d", f, "args[0] = executable, args[i] = argv[i]", "%s:%s" % (f.file, f.line), "same evaluation", nontrivial=False)
     # ------------------------------------------------------------------ e
     for nm_ in ("Process::join", "Process::kill"):
         f = pfn(prog, nm_, lambda f: True)
